@@ -1075,12 +1075,92 @@ def q_plugin_startup_retry(o, tier):
             'witness': {'paths_to_send': len(rows), 'sample': [list(e) for e in rows[0] if e[0] == 'branch'][-4:]}, 'functions': ['WTClient::with_proxy']}
 
 
+def q_slot_update_atomic(o, tier):
+    """C10.M3: concurrent registrations, submissions and refunds never lose a slot update. For every pair of
+    Gatekeeper operations that change a user's record (add_update_user, add_update_appointment, delete_appointments with
+    refund) the in-memory write and the persisted write form one critical section: no interleaving lets thread A write
+    memory before B but the database after B (memory and database would disagree at quiescence), nor lets B read the
+    balance between A's read and A's write."""
+    funcs, idx, t_mir, err = load_mir('teos')
+    if funcs is None:
+        return {'verdict': 'inconclusive', 'reason': 'MIR dump failed'}
+
+    def alpha(c):
+        if re.match(r'^DBM::(update_user|store_user|batch_remove_appointments)$', c):
+            return 'db_write'
+        if re.match(r'^(?:std::collections::)?HashMap::<(?:UserId|TowerId), UserInfo>::(get_mut|insert)', c):
+            return 'mem_access'
+        return None
+    sk = SK.Skeletons(funcs, idx, teos_lock_name, alpha,
+                      event_filter=lambda ev: ev[0] == 'call' or (ev[0] in ('acq', 'rel') and ev[1] in ('users', 'dbm')))
+    names = {}
+    for short_name in ('add_update_user', 'add_update_appointment', 'delete_appointments'):
+        n = [x for x in funcs if re.match(r'^gatekeeper::<impl at .*?>::%s$' % short_name, x)]
+        if len(n) != 1:
+            return {'verdict': 'inconclusive', 'reason': '%s not found' % short_name}
+        def typed_ok(t):
+            # the users map can only be touched through its MutexGuard (borrow checker): a path on which the map is accessed
+            # while the extractor believes the lock is not held combines branches that cannot occur together
+            # (e.g. `refund.then(|| lock)` not taken but `if let Some(guard)` taken) and is discarded
+            held = 0
+            for e in t:
+                if e == ('acq', 'users'):
+                    held += 1
+                elif e == ('rel', 'users'):
+                    held -= 1
+                elif e == ('call', 'mem_access') and held <= 0:
+                    return False
+            return True
+        tr = [t for t in sk.traces(n[0]) if ('call', 'db_write') in t and ('call', 'mem_access') in t and typed_ok(t)]
+        if not tr:
+            return {'verdict': 'inconclusive', 'reason': 'vacuous: no writing trace in %s' % short_name}
+        names[short_name] = sorted(set(tr))
+    if sk.problems:
+        return {'verdict': 'inconclusive', 'reason': '; '.join(sk.problems[:2])}
+    failed, queries, solver_s = [], 0, 0.0
+    ops = sorted(names)
+    for a in ops:
+        for b in ops:
+            for ta in names[a]:
+                for tb in names[b]:
+                    ia_m = max(k for k, e in enumerate(ta) if e == ('call', 'mem_access'))
+                    ia_first = min(k for k, e in enumerate(ta) if e == ('call', 'mem_access'))
+                    ia_d = max(k for k, e in enumerate(ta) if e == ('call', 'db_write'))
+                    ib_m = max(k for k, e in enumerate(tb) if e == ('call', 'mem_access'))
+                    ib_d = max(k for k, e in enumerate(tb) if e == ('call', 'db_write'))
+                    # (1) A's memory write before B's, but A's database write after B's
+                    for orders, what in (([('a', ia_m, 'b', ib_m), ('b', ib_d, 'a', ia_d)], 'memory and database written in opposite orders'),
+                                         ([('a', ia_first, 'b', ib_m), ('b', ib_m, 'a', ia_d)], 'another update lands between the read of the record and its persisted write')):
+                        text = _interleave_query(ta, tb, orders, None)
+                        v, out, dt = smt(text)
+                        queries += 1
+                        solver_s += dt
+                        if v == 'inconclusive':
+                            return {'verdict': 'inconclusive', 'reason': out[:200]}
+                        if v == 'sat':
+                            failed.append({'description': 'lost / diverging slot update: %s' % what,
+                                           'function': 'Gatekeeper::%s | Gatekeeper::%s' % (a, b),
+                                           'schedule': {'A': [list(e) for e in ta], 'B': [list(e) for e in tb]}})
+                            break
+                    if failed:
+                        break
+                if failed:
+                    break
+            if failed:
+                break
+        if failed:
+            break
+    return {'verdict': 'fails' if failed else 'holds', 'failed': failed, 'queries': queries, 'solver_s': solver_s,
+            'witness': {k: [list(e) for e in v[0]] for k, v in names.items()}, 'functions': sorted(short(x) for x in sk.functions_seen)}
+
+
 QUERIES = {
     'lock_order': q_lock_order,
     'api_guard': q_api_guard,
     'poll_best_tip': q_poll_best_tip,
     'missed_breach': q_missed_breach,
     'double_charge': q_double_charge,
+    'slot_update_atomic': q_slot_update_atomic,
     'per_appointment_decrypt': q_per_appointment_decrypt,
     'cv_waiter': q_cv_waiter,
     'plugin_must_record': q_plugin_must_record,
